@@ -140,8 +140,14 @@ INT, BOOL, STR, REAL, NONE = TInt(), TBool(), TStr(), TReal(), TNone()
 ROW, FRAG, GAP = TRow(), TRow("frag"), TRow("gap")
 STRSEQ = TStrSeq()
 STRLIST = TStrList()
-# abstract bytes value: (kind, first, n) - see specs/fasta.py
-BYTES = TTuple([INT, INT, INT])
+
+
+class TBytes(TTuple):
+    """abstract bytes value: (kind, first, n) - see specs/fasta.py; a type of its own so that an ordinary
+    tuple of three ints is never mistaken for it"""
+
+
+BYTES = TBytes([INT, INT, INT])
 
 
 class Val:
